@@ -150,3 +150,17 @@ def iter_dump_text(path):
 def parse_dump(path):
     for txt in iter_dump_text(path):
         yield parse_state_text(txt)
+
+
+def sim_states(path, last_only=True):
+    """states of one `tlc -simulate file=...` behaviour file; by default only the final state"""
+    with open(path) as fh:
+        txt = fh.read()
+    blocks = re.split(r'(?m)^STATE_\d+ == *\n', txt)[1:]
+    if not blocks:
+        return []
+    out = []
+    for b in (blocks[-1:] if last_only else blocks):
+        b = re.split(r'(?m)^(?:\\\*|=====)', b)[0]
+        out.append(parse_state_text(b))
+    return out
